@@ -1,6 +1,8 @@
 #!/usr/bin/env python3
 """Validate a seeded change and run the property's check against it.
-usage: tools/seedtest.py <dir with patch.diff, meta.json, demo file(s)> [--keep-as <id>] [--no-demo]
+usage: tools/seedtest.py <dir with patch.diff, meta.json, demo file(s)> [--keep-as <id>] [--no-demo] [--vw <scratch worktree of /verif>]
+With --vw the check runs in that worktree of /verif (created, or moved to /verif's HEAD, first), so several of these
+can run side by side without sharing lean/Gen or build output.
 Works in a scratch worktree of /repo (never /repo itself); VERIF_REPO points the check at it."""
 import json, os, shutil, subprocess, sys, time
 V = os.path.dirname(os.path.dirname(os.path.abspath(__file__)))
@@ -15,6 +17,15 @@ def main():
     keep = sys.argv[sys.argv.index("--keep-as") + 1] if "--keep-as" in sys.argv else None
     meta = json.load(open(os.path.join(d, "meta.json")))
     prop = meta["property"]
+    vw = sys.argv[sys.argv.index("--vw") + 1] if "--vw" in sys.argv else None
+    CHK = V
+    if vw:
+        head = sh(["git", "-C", V, "rev-parse", "HEAD"])[1].strip()
+        if not os.path.isdir(vw):
+            sh(["git", "-C", V, "worktree", "add", "-q", "--detach", vw, head])
+        else:
+            sh(["git", "-C", vw, "checkout", "-q", "--detach", head])
+        CHK = vw
     wt = f"/tmp/rw_seed_{os.getpid()}"
     sh(["git", "-C", "/repo", "worktree", "add", "-q", wt, "HEAD"])
     out = {"property": prop, "dir": d}
@@ -31,7 +42,8 @@ def main():
             os.makedirs(os.path.dirname(dst), exist_ok=True)
             shutil.copy(demo_src, dst)
             pkg = "./" + os.path.dirname(demo)
-            rc, o = sh(["go", "test", "-count=1", "-run", meta.get("demo_test_regex", "Seeded|Seed|Verif|Demo|Mut"), pkg], cwd=wt, timeout=1800)
+            tags = ["-tags", meta["demo_tags"]] if meta.get("demo_tags") else []
+            rc, o = sh(["go", "test", "-count=1"] + tags + ["-run", meta.get("demo_test_regex") or "Seeded|Seed|Verif|Demo|Mut", pkg], cwd=wt, timeout=1800)
             os.remove(dst)
             return rc, o[-1500:]
         if "--no-demo" not in sys.argv:
@@ -47,12 +59,22 @@ def main():
             rc1, o1 = run_demo()
             out["demo_with_change"] = "fail (as intended)" if rc1 not in (0, None) else f"rc={rc1}: {o1}"
         pkgs = sorted({"./" + os.path.dirname(f) + "/..." for f in meta.get("files_changed", [])})
-        rc, o = sh(["go", "test", "-count=1"] + pkgs, cwd=wt, timeout=3000)
-        fails = [l for l in o.splitlines() if l.startswith("--- FAIL")]
-        out["existing_tests_failing_with_change"] = fails
+        full = "--full-suite" in sys.argv
+        rc, o = sh(["go", "test", "-json", "-vet=off", "-count=1", "-timeout", "25m"] + (["./..."] if full else pkgs), cwd=wt, timeout=3000)
+        stable = set(json.load(open("/root/.vp/BASELINE.json"))["stable_pass"])
+        fails = []
+        for l in o.splitlines():
+            try:
+                e = json.loads(l)
+            except Exception:
+                continue
+            if e.get("Test") and e.get("Action") == "fail" and f"{e['Package']}::{e['Test']}" in stable:
+                fails.append(f"{e['Package']}::{e['Test']}")
+        out["existing_tests_failing_with_change"] = sorted(set(fails))
+        out["existing_tests_scope"] = "whole pinned suite" if full else " ".join(pkgs)
         # the check
         t = time.time()
-        rc, o = sh(["./check", prop, "--tier", "quick"], cwd=V, env=dict(ENV, VERIF_REPO=wt, VERIF_EVIDENCE_DIR=os.path.join(V, ".build", "evidence_scratch")), timeout=3600)
+        rc, o = sh(["./check", prop, "--tier", "quick"], cwd=CHK, env=dict(ENV, VERIF_REPO=wt, VERIF_EVIDENCE_DIR=os.path.join(CHK, ".build", "evidence_scratch")), timeout=3600)
         out["check_exit"] = rc
         out["check_output"] = [l for l in o.splitlines() if l.startswith(("VIOLATION", "KNOWN-FINDING"))]
         out["check_wall_s"] = round(time.time() - t, 1)
@@ -76,7 +98,7 @@ def main():
             if os.path.abspath(d) != os.path.abspath(dst):
                 shutil.copy(os.path.join(d, f), dst)
         prev = meta.get("what_i_ran") or {}
-        meta["what_i_ran"] = {k: (out.get(k) if out.get(k) is not None else prev.get(k)) for k in ("demo_without_change", "demo_with_change", "builds", "existing_tests_failing_with_change", "check_exit", "check_output", "caught", "with_failing_input", "replay", "check_wall_s")}
+        meta["what_i_ran"] = {k: (out.get(k) if out.get(k) is not None else prev.get(k)) for k in ("demo_without_change", "demo_with_change", "builds", "existing_tests_failing_with_change", "existing_tests_scope", "check_exit", "check_output", "caught", "with_failing_input", "replay", "check_wall_s")}
         json.dump(meta, open(os.path.join(dst, "meta.json"), "w"), indent=1)
 
 if __name__ == "__main__":
